@@ -241,3 +241,411 @@ func modeC01(e *Env) {
 		RunStreamScenario(e.Rec, sc)
 	}
 }
+
+// ---- fault families (C04, C05, C06, C07, C17) -------------------------------------------------
+
+var transportFaults = []string{"close", "reset", "short", "outofseq", "err", "eof"}
+
+// nCommitsBefore counts the committing units whose last event is among the first i packets served from start.
+func nCommitsBefore(l *Log, start Pos, i int) int {
+	evs, _ := l.Served(start)
+	last := map[*Ev]bool{}
+	for _, f := range l.Files {
+		for _, u := range f.Units {
+			switch u.U {
+			case "txxid", "txcommit", "txrollback", "ddl", "autorow", "stmtdml":
+				last[u.Evs[len(u.Evs)-1]] = true
+			}
+		}
+	}
+	n := 0
+	for j, e := range evs {
+		if j >= i {
+			break
+		}
+		if last[e] {
+			n++
+		}
+	}
+	return n
+}
+
+// servedInfo returns the number of packets served from start and the number of committing units among them.
+func servedInfo(l *Log, start Pos) (npk, ntx int) {
+	evs, _ := l.Served(start)
+	return len(evs), nCommitsBefore(l, start, len(evs))
+}
+
+// firstTable returns some table announced in the log ("" if none).
+func firstTable(l *Log) string {
+	for k := range l.Tables() {
+		return k
+	}
+	return ""
+}
+
+// faultPlans enumerates single-fault attempts for a log served from start: every fault kind of C04's
+// quantifier at every packet / transaction index.
+func faultPlans(l *Log, start Pos, pacing string, stride int, r *rand.Rand) []AttemptPlan {
+	npk, ntx := servedInfo(l, start)
+	var out []AttemptPlan
+	base := func() AttemptPlan { a := defaultAttempt(); a.Pacing = pacing; return a }
+	off := 0
+	if stride > 1 {
+		off = r.Intn(stride)
+	}
+	for i := off; i <= npk; i += stride {
+		for _, k := range transportFaults {
+			a := base()
+			a.Fault = &Fault{Kind: k, At: i, Code: uint16(1000 + r.Intn(3000)), Msg: "verif master error " + itoa(r.Intn(1000))}
+			out = append(out, a)
+		}
+		a := base()
+		a.End = "idle"
+		a.CancelAtPkt = i
+		if i == npk {
+			a.CancelAtPkt = npk - 1
+		}
+		out = append(out, a)
+		if i >= 2 {
+			for _, k := range []string{"rand", "intvar", "rowsquery", "invalid"} {
+				a := base()
+				a.Inject = &Inject{Kind: k, At: i}
+				if k == "invalid" {
+					a.Inject.Raw = invalidPacket(r)
+				}
+				out = append(out, a)
+			}
+		}
+	}
+	for k := 0; k < ntx; k++ {
+		a := base()
+		a.HandlerErrAt = k
+		out = append(out, a)
+		b := base()
+		b.End = "idle"
+		b.CancelAtTx = k
+		out = append(out, b)
+	}
+	for name := range l.Tables() {
+		a := base()
+		a.MapperFault = "err:" + name
+		out = append(out, a)
+		b := base()
+		b.MapperFault = "mismatch:" + name
+		out = append(out, b)
+	}
+	return out
+}
+
+// invalidPacket builds a packet the validity gate must reject: truncated, over-long, or garbage.
+func invalidPacket(r *rand.Rand) []byte {
+	ev := mkEvent(1600000000, tXid, 1, 500, 0, le64(99), false)
+	switch r.Intn(6) {
+	case 0:
+		return ev[:r.Intn(19)] // shorter than a header
+	case 1:
+		return ev[:19+r.Intn(len(ev)-19)] // truncated body: length field too large
+	case 2:
+		return append(ev, randBytes(r, 1+r.Intn(9))...) // over-long: length field too small
+	case 3:
+		return randBytes(r, r.Intn(64))
+	case 4:
+		b := append([]byte{}, ev...)
+		b[9], b[10], b[11], b[12] = 0, 0, 0, 0 // length 0
+		return b
+	default:
+		b := append([]byte{}, ev...)
+		b[9], b[10], b[11], b[12] = 0xff, 0xff, 0xff, 0xff
+		return b
+	}
+}
+
+func smallGP() GenParams {
+	return GenParams{MaxUnits: 4, MaxStmts: 2, MaxTables: 2, MaxRows: 2, MaxCols: 3, MaxFiles: 2, MaxPayload: 20, SimpleCols: true}
+}
+
+func init() {
+	modes["c04"] = modeC04
+	modes["c07"] = modeC07
+	modes["c17s"] = modeC17Stream
+}
+
+// modeC04: for each history, every single fault (kind x index) as a failed first attempt followed by a clean
+// attempt on the SAME streamer; in the thorough tier additionally random sequences of up to 3 failed attempts.
+func modeC04(e *Env) {
+	cfgs := allCfgs()
+	id := 0
+	nlogs := e.N(3, 40)
+	for li := 0; li < nlogs; li++ {
+		gp := smallGP()
+		if li%3 == 2 {
+			gp.MaxUnits = 6
+		}
+		cfg := cfgs[e.R.Intn(len(cfgs))]
+		l := GenLog(e.R, cfg, gp, nil)
+		start := l.Boundaries()[0]
+		if _, ntx := servedInfo(l, start); ntx == 0 {
+			li--
+			continue
+		}
+		pacing := "burst"
+		if li%2 == 1 {
+			pacing = "lockstep"
+		}
+		stride := e.N(2, 1)
+		plans := faultPlans(l, start, pacing, stride, e.R)
+		for _, fp := range plans {
+			id++
+			RunStreamScenario(e.Rec, &StreamScenario{ID: id, Fam: "c04", Log: l, Start: start, ServerID: 11,
+				Attempts: []AttemptPlan{fp, defaultAttempt()}, Note: "single"})
+		}
+		// sequences of up to 3 failed attempts, then a clean one
+		nseq := e.N(6, 60)
+		for s := 0; s < nseq; s++ {
+			var atts []AttemptPlan
+			nf := 1 + e.R.Intn(3)
+			for j := 0; j < nf; j++ {
+				atts = append(atts, plans[e.R.Intn(len(plans))])
+			}
+			atts = append(atts, defaultAttempt())
+			id++
+			RunStreamScenario(e.Rec, &StreamScenario{ID: id, Fam: "c04", Log: l, Start: start, ServerID: 11,
+				Attempts: atts, Note: "sequence"})
+		}
+	}
+}
+
+// modeC07: handshake. (a) arbitrary server ids / file names / offsets against a master that ends the dump at once
+// (no log needed), several attempts and explicit re-positioning; (b) histories with transport faults, where later
+// attempts must ask for the stored resume position.
+func modeC07(e *Env) {
+	id := 0
+	sids := []uint32{1, 2, 1<<31 - 1, 1 << 31, 1<<31 + 1, 1<<32 - 1, 0, 65536}
+	offs := []uint32{4, 5, 255, 256, 65535, 65536, 1<<31 - 1, 1 << 31, 1<<32 - 1, 1<<32 - 2}
+	names := []string{"a", "mysql-bin.000001", "b.1", "x.y.z.000099", "bin\xc3\xa9\xe4\xb8\xad.000002", "with space.01",
+		string(bytesRepeat('n', 255)), string(bytesRepeat('q', 100)) + ".000001"}
+	n := e.N(40, 600)
+	for i := 0; i < n; i++ {
+		sid := sids[e.R.Intn(len(sids))]
+		off := offs[e.R.Intn(len(offs))]
+		name := names[e.R.Intn(len(names))]
+		if i%3 == 0 {
+			sid, off = e.R.Uint32(), e.R.Uint32()
+			if off < 4 {
+				off = 4
+			}
+			name = randName(e.R, 1+e.R.Intn(40)) + "." + randName(e.R, 1+e.R.Intn(6))
+		}
+		l := &Log{Cfg: allCfgs()[0]}
+		nat := 1 + e.R.Intn(3)
+		var atts []AttemptPlan
+		for j := 0; j < nat; j++ {
+			a := defaultAttempt()
+			a.Fault = &Fault{Kind: "eof", At: 0}
+			atts = append(atts, a)
+		}
+		id++
+		sc := &StreamScenario{ID: id, Fam: "c07", Log: l, Start: Pos{name, off}, ServerID: sid, Attempts: atts, Note: "bare"}
+		if i%4 == 1 && nat > 1 {
+			sc.SetPosBefore = map[int]Pos{1: {names[e.R.Intn(len(names))], offs[e.R.Intn(len(offs))]}}
+		}
+		RunStreamScenario(e.Rec, sc)
+	}
+	// (b) resumed attempts after transport faults and cancels
+	cfgs := allCfgs()
+	m := e.N(30, 300)
+	for i := 0; i < m; i++ {
+		l := GenLog(e.R, cfgs[e.R.Intn(len(cfgs))], smallGP(), nil)
+		start := l.Boundaries()[0]
+		npk, _ := servedInfo(l, start)
+		var atts []AttemptPlan
+		for j := 0; j < 1+e.R.Intn(3); j++ {
+			a := defaultAttempt()
+			if e.R.Intn(2) == 0 {
+				a.Pacing = "lockstep"
+			}
+			a.Fault = &Fault{Kind: transportFaults[e.R.Intn(len(transportFaults))], At: e.R.Intn(npk + 1), Code: 1236, Msg: "x"}
+			atts = append(atts, a)
+		}
+		atts = append(atts, defaultAttempt())
+		id++
+		RunStreamScenario(e.Rec, &StreamScenario{ID: id, Fam: "c07", Log: l, Start: start, ServerID: sids[e.R.Intn(len(sids))],
+			Attempts: atts, Note: "history"})
+	}
+}
+
+func bytesRepeat(c byte, n int) []byte {
+	b := make([]byte, n)
+	for i := range b {
+		b[i] = c
+	}
+	return b
+}
+
+// modeC17Stream: a malformed packet injected at every index of a history; then a clean attempt.
+func modeC17Stream(e *Env) {
+	cfgs := allCfgs()
+	id := 0
+	nlogs := e.N(4, 40)
+	for li := 0; li < nlogs; li++ {
+		l := GenLog(e.R, cfgs[e.R.Intn(len(cfgs))], smallGP(), nil)
+		start := l.Boundaries()[0]
+		npk, _ := servedInfo(l, start)
+		for i := 0; i <= npk; i++ {
+			for rep := 0; rep < e.N(2, 6); rep++ {
+				a := defaultAttempt()
+				if rep%2 == 1 {
+					a.Pacing = "lockstep"
+				}
+				a.Inject = &Inject{Kind: "invalid", At: i, Raw: invalidPacket(e.R)}
+				id++
+				RunStreamScenario(e.Rec, &StreamScenario{ID: id, Fam: "c17", Log: l, Start: start, ServerID: 5,
+					Attempts: []AttemptPlan{a, defaultAttempt()}, Note: "inject"})
+			}
+		}
+	}
+}
+
+// ---- C05 / C06: termination, leftovers, reported reasons ---------------------------------------
+
+func init() {
+	modes["c05"] = modeC05
+	modes["c06"] = modeC05
+	modes["c08"] = modeC08
+}
+
+// stopPlans: every stop cause x stop point x reader state (waiting for the network = lock-step; holding an
+// event the parser has not taken = burst with the parser kept busy) x handler fast / blocked-at-stop.
+func stopPlans(l *Log, start Pos, r *rand.Rand, stride int) []AttemptPlan {
+	var out []AttemptPlan
+	for _, pacing := range []string{"burst", "lockstep"} {
+		out = append(out, faultPlans(l, start, pacing, stride, r)...)
+	}
+	npk, ntx := servedInfo(l, start)
+	// handler blocked at the stop: the handler of transaction k blocks until the cancel fires
+	for k := 0; k < ntx; k++ {
+		for _, i := range []int{npk - 1, r.Intn(npk)} {
+			a := defaultAttempt()
+			a.End = "idle"
+			a.HandlerBlock = k
+			a.CancelAtPkt = i
+			out = append(out, a)
+		}
+	}
+	// the caller cancels its context after Stream returned (e.g. a deferred cancel) and then asks Error()
+	for _, k := range transportFaults {
+		a := defaultAttempt()
+		a.Fault = &Fault{Kind: k, At: r.Intn(npk + 1), Code: 1999, Msg: "late cancel " + itoa(r.Intn(100))}
+		a.CancelAfterReturn = true
+		out = append(out, a)
+	}
+	// connection-stage failures
+	for _, cf := range []string{"handshake_close", "handshake_err", "set_err", "dump_close", "dump_err"} {
+		a := defaultAttempt()
+		a.ConnFault = cf
+		out = append(out, a)
+	}
+	d := defaultAttempt()
+	d.Dead = true
+	out = append(out, d)
+	return out
+}
+
+func modeC05(e *Env) {
+	cfgs := allCfgs()
+	id := 0
+	nlogs := e.N(2, 16)
+	reps := e.N(1, 3)
+	for li := 0; li < nlogs; li++ {
+		gp := smallGP()
+		l := GenLog(e.R, cfgs[e.R.Intn(len(cfgs))], gp, nil)
+		start := l.Boundaries()[0]
+		if _, ntx := servedInfo(l, start); ntx == 0 {
+			li--
+			continue
+		}
+		plans := stopPlans(l, start, e.R, e.N(3, 1))
+		for _, p := range plans {
+			for rep := 0; rep < reps; rep++ {
+				id++
+				atts := []AttemptPlan{p, defaultAttempt()}
+				if id%5 == 0 {
+					atts = []AttemptPlan{defaultAttempt(), p, defaultAttempt()}
+				}
+				RunStreamScenario(e.Rec, &StreamScenario{ID: id, Fam: "c05", Log: l, Start: start, ServerID: 13, Attempts: atts, Note: "stop"})
+			}
+		}
+	}
+}
+
+// modeC08: stability of delivered data. Events sized around the driver's 4096-byte receive buffer, later packets
+// arriving before / after the handler returns, handlers that overwrite every delivered byte slice.
+func modeC08(e *Env) {
+	cfgs := allCfgs()
+	id := 0
+	n := e.N(24, 300)
+	for i := 0; i < n; i++ {
+		gp := GenParams{MaxUnits: 6, MaxStmts: 3, MaxTables: 3, MaxRows: 3, MaxCols: 6, MaxFiles: 2, MaxPayload: 40}
+		switch i % 4 {
+		case 1:
+			gp.MaxPayload = 1400 // rows events around 4096 bytes
+		case 2:
+			gp.MaxPayload = 3000
+			gp.MaxRows = 40
+		}
+		l := GenLog(e.R, cfgs[e.R.Intn(len(cfgs))], gp, nil)
+		a := defaultAttempt()
+		a.Scribble = i%2 == 0
+		if i%3 == 0 {
+			a.Pacing = "lockstep"
+		} else {
+			// later packets arrive while the handler of the first transaction is still running
+			a.HandlerBlock = 0
+			a.HandlerBlockMs = 30
+		}
+		id++
+		RunStreamScenario(e.Rec, &StreamScenario{ID: id, Fam: "c08", Log: l, Start: l.Boundaries()[0], ServerID: 21,
+			Attempts: []AttemptPlan{a}, Note: "stability"})
+	}
+	// zero timestamps with and without fractions: values that an implementation may be tempted to share
+	for i := 0; i < e.N(6, 40); i++ {
+		cfg := cfgs[e.R.Intn(len(cfgs))]
+		l := &Log{Cfg: cfg}
+		t := &Table{ID: 300, DB: "dz", Name: "tz"}
+		for c, col := range []Col{colTimestampOld(), colTimestamp2(e.R.Intn(7)), colTimestamp2(0), colTimestamp2(6), colDateTime2(3), colInt("long", false)} {
+			col.Name = "z" + itoa(c)
+			col.Nullable = true
+			t.Cols = append(t.Cols, col)
+		}
+		f := &LogFile{Name: "mysql-bin.000001"}
+		l.Files = []*LogFile{f}
+		ts := uint32(1600000000)
+		for u := 0; u < 3; u++ {
+			ev := &Ev{K: "write", TS: ts, Tbl: t}
+			for rw := 0; rw < 2; rw++ {
+				var img []Cell
+				for ci := range t.Cols {
+					c := &t.Cols[ci]
+					raw := genCell(e.R, c, 10)
+					if c.Typ == 7 || c.Typ == 17 {
+						raw[0], raw[1], raw[2], raw[3] = 0, 0, 0, 0 // the zero timestamp
+					}
+					img = append(img, Cell{St: "val", Bytes: raw})
+				}
+				none := make([]Cell, len(t.Cols))
+				for ci := range none {
+					none[ci] = Cell{St: "absent"}
+				}
+				ev.Rows = append(ev.Rows, RowPair{B: none, A: img})
+			}
+			f.Units = append(f.Units, &Unit{U: "autorow", Evs: []*Ev{{K: "tablemap", TS: ts, Tbl: t}, ev}})
+		}
+		l.Layout()
+		a := defaultAttempt()
+		a.Scribble = true
+		id++
+		RunStreamScenario(e.Rec, &StreamScenario{ID: id, Fam: "c08", Log: l, Start: l.Boundaries()[0], ServerID: 21,
+			Attempts: []AttemptPlan{a}, Note: "zero-timestamps"})
+	}
+}
